@@ -1,18 +1,13 @@
 package harness
 
-import "github.com/jmsadair/raft"
+import (
+	"fmt"
+	"strings"
+	"time"
 
-// stickyWindow is the C16 monitor (filled in by window.go).
-type stickyWindow struct {
-	c *Cluster
-}
-
-func (w *stickyWindow) onStatus(inc *Incarnation, prev, st raft.Status, had bool) {}
-func (w *stickyWindow) finish()                                                 {}
-
-func (c *Cluster) extraTasks(faultEndNs int64) {}
-
-func (c *Cluster) execExtraStep(st Step) {}
+	"github.com/jmsadair/raft"
+	"github.com/jmsadair/raft/xsim/simrt"
+)
 
 // callOn runs fn as a task of inc's process and parks the caller until it is
 // done (ok=false if the process died first).
@@ -27,6 +22,11 @@ func (c *Cluster) callOn(inc *Incarnation, name string, fn func()) (ok bool) {
 	}
 	simrtWaitUntil("call "+name, func() bool { return done || inc.Node.Inc != inc })
 	return done
+}
+
+// goOn runs fn as a task of inc's process without waiting.
+func (c *Cluster) goOn(inc *Incarnation, name string, fn func()) {
+	c.Sim.GoProc(inc.Proc, inc.Name()+"/"+name, fn)
 }
 
 // setupNonVoters starts the designated non-voting members empty (Start without
@@ -62,4 +62,712 @@ func (c *Cluster) setupNonVoters(untilNs int64) {
 			f.Await()
 		})
 	}
+}
+
+func (c *Cluster) extraTasks(faultEndNs int64) {
+	cfg := c.Cfg
+	if cfg.Membership {
+		c.Sim.GoProc(c.Sim.Harness, "membership-client", func() { c.membershipClient(faultEndNs) })
+	}
+	if cfg.ApiFuzz {
+		for _, n := range c.Nodes {
+			if n.Spare {
+				continue
+			}
+			node := n
+			c.Sim.GoProc(c.Sim.Harness, "apifuzz-"+n.ID, func() { c.apiFuzzer(node, faultEndNs) })
+		}
+	}
+	if cfg.StickyWindow {
+		c.window = &stickyWindow{c: c}
+		c.Sim.GoProc(c.Sim.Harness, "sticky-window", func() { c.window.run(faultEndNs) })
+	}
+}
+
+func (c *Cluster) execExtraStep(st Step) {}
+
+// ------------------------------------------------------------------ C09 membership workload
+
+// ConfCall is one membership request in the recorded history.
+type ConfCall struct {
+	ID        int
+	Kind      string // add-nonvoter, add-voter, promote, remove
+	Node      string
+	Voter     bool
+	Target    *Incarnation
+	TermAt    uint64
+	InvokeNs  int64
+	TimeoutMs int64
+	Returned  bool
+	ReturnNs  int64
+	OK        bool
+	ErrKind   string
+	Result    raft.Configuration
+	// The configuration entry this call appended (0 if none).
+	AppendedIndex uint64
+	AppendedTerm  uint64
+	AppliedAtNs   int64 // when the target applied AppendedIndex while still leader of TermAt (0 = never seen)
+}
+
+func confErrKind(err error) string {
+	switch {
+	case err == nil:
+		return ""
+	case err == raft.ErrNotLeader:
+		return "not-leader"
+	case err == raft.ErrTimeout:
+		return "timeout"
+	case err == raft.ErrPendingConfiguration:
+		return "pending"
+	case err == raft.ErrNoCommitThisTerm:
+		return "no-commit-this-term"
+	}
+	return "other:" + err.Error()
+}
+
+// membershipCall issues AddServer/RemoveServer on inc and records the outcome.
+func (c *Cluster) membershipCall(inc *Incarnation, kind string, n *Node, voter bool, timeoutMs int64, wait bool) *ConfCall {
+	r := c.Rec
+	call := &ConfCall{ID: len(r.ConfCalls) + 1, Kind: kind, Node: n.ID, Voter: voter, Target: inc, TimeoutMs: timeoutMs, InvokeNs: c.Sim.Now()}
+	if inc.haveStatus {
+		call.TermAt = inc.lastStatus.Term
+	}
+	r.ConfCalls = append(r.ConfCalls, call)
+	c.Stats.MembershipCalls++
+	body := func() {
+		r.ev("confcall %d %s %s voter=%v at %s", call.ID, kind, n.ID, voter, inc.Name())
+		r.curConfCall[c.Sim.Cur()] = call
+		var f raft.Future[raft.Configuration]
+		if kind == "remove" {
+			f = inc.Raft.RemoveServer(n.ID, msDur(timeoutMs))
+		} else {
+			f = inc.Raft.AddServer(n.ID, n.Addr, voter, msDur(timeoutMs))
+		}
+		delete(r.curConfCall, c.Sim.Cur())
+		if simrt.Dead() {
+			return
+		}
+		if call.AppendedIndex != 0 {
+			inc.pendingConf = append(inc.pendingConf, call)
+		}
+		res := f.Await()
+		if simrt.Dead() {
+			return
+		}
+		call.Returned = true
+		call.ReturnNs = c.Sim.Now()
+		if err := res.Error(); err != nil {
+			call.ErrKind = confErrKind(err)
+			r.ev("confreturn %d err=%s", call.ID, call.ErrKind)
+		} else {
+			call.OK = true
+			call.Result = res.Success()
+			c.Stats.MembershipOK++
+			r.ev("confreturn %d ok conf=%s", call.ID, confString(call.Result))
+		}
+		r.onConfReturned(call)
+	}
+	if wait {
+		c.callOn(inc, fmt.Sprintf("conf%d", call.ID), body)
+	} else {
+		c.goOn(inc, fmt.Sprintf("conf%d", call.ID), body)
+	}
+	return call
+}
+
+func (c *Cluster) membershipClient(untilNs int64) {
+	cfg := c.Cfg
+	rng := simrt.NewRand(cfg.Seed, "membership")
+	for c.Sim.Now() < untilNs && !c.healing {
+		// Back-to-back, or after a pause of up to a few election timeouts.
+		if rng.Chance(0.35) {
+			c.sleepMs(rng.Range(0, 2))
+		} else {
+			c.sleepMs(rng.Range(1, 3*int64(cfg.ElectionMs)))
+		}
+		if c.Sim.Now() >= untilNs || c.healing {
+			return
+		}
+		up := c.upNodes()
+		if len(up) == 0 {
+			continue
+		}
+		var target *Node
+		if rng.Chance(0.75) {
+			target = c.believedLeader()
+		}
+		if target == nil {
+			target = up[rng.Intn(len(up))]
+		}
+		inc := target.Inc
+		conf, ok := c.configuration(inc)
+		if !ok {
+			continue
+		}
+		// Candidates for each action, from the target's own view.
+		var spares, nonvoters, members []*Node
+		for _, n := range c.Nodes {
+			if _, in := conf.Members[n.ID]; in {
+				members = append(members, n)
+				if !conf.IsVoter[n.ID] {
+					nonvoters = append(nonvoters, n)
+				}
+			} else {
+				spares = append(spares, n)
+			}
+		}
+		voters := len(members) - len(nonvoters)
+		var kind string
+		var n *Node
+		voter := false
+		x := rng.Intn(100)
+		switch {
+		case x < 30 && len(spares) > 0:
+			kind, n = "add-nonvoter", spares[rng.Intn(len(spares))]
+		case x < 45 && len(spares) > 0:
+			kind, n, voter = "add-voter", spares[rng.Intn(len(spares))], true
+		case x < 70 && len(nonvoters) > 0:
+			kind, n, voter = "promote", nonvoters[rng.Intn(len(nonvoters))], true
+		case len(members) > 1:
+			kind, n = "remove", members[rng.Intn(len(members))]
+			if rng.Chance(0.3) {
+				n = target // remove the node the request is sent to (the leader, usually)
+			}
+			if voters <= 1 && conf.IsVoter[n.ID] {
+				continue // nobody removes the last voter of a cluster
+			}
+		default:
+			continue
+		}
+		if kind != "remove" && !n.Started {
+			// New servers start empty (Start without Bootstrap), as in the repository's tests.
+			c.startNode(n, nil)
+		}
+		if kind != "remove" && n.Inc == nil && rng.Chance(0.5) {
+			c.Stats.Restarts++
+			c.startNode(n, nil)
+		}
+		to := rng.Range(int64(cfg.HeartbeatMs), 6*int64(cfg.ElectionMs))
+		c.membershipCall(inc, kind, n, voter, to, rng.Chance(0.5))
+	}
+}
+
+// onConfReturned: C09(e) / C18 for membership futures.
+func (r *Recorder) onConfReturned(call *ConfCall) {
+	if !call.OK {
+		return
+	}
+	conf := call.Result
+	// The returned configuration contains the requested change.
+	_, member := conf.Members[call.Node]
+	switch call.Kind {
+	case "remove":
+		if member {
+			r.violate("C09", "config-future", "change-missing", "RemoveServer(%s) at %s succeeded with a configuration that still contains it: %s", call.Node, call.Target.Name(), confString(conf))
+		}
+	default:
+		if !member || conf.IsVoter[call.Node] != call.Voter {
+			r.violate("C09", "config-future", "change-missing", "AddServer(%s, voter=%v) at %s succeeded with configuration %s", call.Node, call.Voter, call.Target.Name(), confString(conf))
+		}
+	}
+	// ... and is a committed configuration: its index holds exactly that configuration in the registry.
+	reg, ok := r.Reg[conf.Index]
+	if !ok || !reg.Full || reg.Type != raft.ConfigurationEntry {
+		r.violate("C09", "config-future", "not-committed", "%s at %s succeeded with configuration %s whose index is not a committed configuration entry", call.Kind, call.Target.Name(), confString(conf))
+		return
+	}
+	if want, ok := r.confSeen[confKey{conf.Index, reg.Term}]; ok && !sameMembers(want, conf) {
+		r.violate("C09", "config-future", "differs-from-committed", "%s at %s succeeded with %s but index %d committed %s", call.Kind, call.Target.Name(), confString(conf), conf.Index, confString(want))
+	}
+}
+
+// confAppended is called when a configuration entry is appended inside a membership call.
+func (r *Recorder) confAppended(inc *Incarnation, e *raft.LogEntry) {
+	if call := r.curConfCall[r.c.Sim.Cur()]; call != nil {
+		call.AppendedIndex, call.AppendedTerm = e.Index, e.Term
+	}
+}
+
+// onConfiguration is called by the observer (membership profiles) with a fresh sample.
+func (r *Recorder) onConfiguration(inc *Incarnation, conf raft.Configuration) {
+	if conf.Index == inc.lastConfIdx && inc.haveConf {
+		return
+	}
+	prev := inc.lastConfIdx
+	inc.lastConfIdx = conf.Index
+	inc.haveConf = true
+	inc.lastConf = conf
+	r.ev("conf %s %s", inc.Name(), confString(conf))
+	r.probe("configuration-changes-observed")
+	// A configuration in force at a committed configuration index equals the committed one.
+	// (Only if the node's own log entry at that index is the committed one: a deposed leader
+	// may still hold an uncommitted configuration of an older term at the same index.)
+	own, have := inc.Node.Mirror.get(conf.Index)
+	if reg, ok := r.Reg[conf.Index]; ok && have && own.Term == reg.Term && reg.Full && reg.Type == raft.ConfigurationEntry {
+		if want, ok := r.confSeen[confKey{conf.Index, reg.Term}]; ok && !sameMembers(want, conf) {
+			r.violate("C09", "config-divergence", "differs-from-committed", "%s uses configuration %s but index %d committed %s", inc.Name(), confString(conf), conf.Index, confString(want))
+		}
+	}
+	_ = prev
+}
+
+// checkCommitQuorum: C09(f) — when a leader advances its commit index, the entry is in the
+// persistent logs of a majority of the voters of the leader's own configuration.
+func (r *Recorder) checkCommitQuorum(inc *Incarnation, st raft.Status) {
+	conf := inc.lastConf
+	if !inc.haveConf {
+		return
+	}
+	m := inc.Node.Mirror
+	e, ok := m.get(st.CommitIndex)
+	if !ok {
+		return
+	}
+	voters, have := 0, 0
+	var holders []string
+	for id, v := range conf.IsVoter {
+		if !v {
+			continue
+		}
+		voters++
+		n := r.c.byID[id]
+		if n == nil {
+			continue
+		}
+		if x, ok := n.Mirror.get(st.CommitIndex); ok && x.Term == e.Term {
+			have++
+			holders = append(holders, id)
+		} else if st.CommitIndex <= n.Mirror.first() && n.Mirror.first() > 0 {
+			have++
+			holders = append(holders, id)
+		}
+	}
+	if voters > 0 && have*2 <= voters {
+		r.violate("C09", "commit-without-quorum", "voters", "leader %s (term %d) advanced its commit index to %d, but only %v of the %d voters of its configuration %s hold that entry",
+			inc.Name(), st.Term, st.CommitIndex, holders, voters, confString(conf))
+	}
+	r.probe("commit-quorum-checked")
+}
+
+// ------------------------------------------------------------------ C16 sticky window
+
+type stickyWindow struct {
+	c        *Cluster
+	active   bool
+	leader   *Node
+	term     uint64
+	majority map[string]bool
+	minority []*Node
+	violated bool
+	started  bool
+}
+
+func (w *stickyWindow) onStatus(inc *Incarnation, prev, st raft.Status, had bool) {
+	if !w.active || w.violated {
+		return
+	}
+	id := inc.Node.ID
+	if !w.majority[id] {
+		return
+	}
+	if st.Term != w.term {
+		w.violated = true
+		w.c.Rec.violate("C16", "majority-term-increased", "term", "%s (in the prompt majority around leader %s) moved from term %d to %d during the window", inc.Name(), w.leader.ID, w.term, st.Term)
+		return
+	}
+	if inc.Node == w.leader && st.State != raft.Leader {
+		w.violated = true
+		w.c.Rec.violate("C16", "leader-stepped-down", "state", "leader %s left the leader state (now %d) in term %d while in prompt contact with a majority", inc.Name(), st.State, st.Term)
+	}
+}
+
+func (w *stickyWindow) finish() {}
+
+// run drives the C16 scenario: stabilise, fix a prompt majority, torment the rest.
+func (w *stickyWindow) run(untilNs int64) {
+	c := w.c
+	cfg := c.Cfg
+	rng := simrt.NewRand(cfg.Seed, "window")
+	// Phase 1: one leader, every node on its term, an entry of that term committed.
+	deadline := c.Sim.Now() + 40*cfg.electionNs()
+	for c.Sim.Now() < deadline {
+		c.sleepMs(int64(cfg.HeartbeatMs))
+		l := c.uniqueLeader()
+		if l == nil {
+			continue
+		}
+		ok := true
+		for _, n := range c.Nodes {
+			if n.Spare {
+				continue
+			}
+			if n.Inc == nil || !n.Inc.haveStatus || n.Inc.lastStatus.Term != l.Inc.lastStatus.Term {
+				ok = false
+			}
+		}
+		if !ok {
+			continue
+		}
+		// An entry of the leader's term is committed.
+		e, have := l.Mirror.get(l.Inc.lastStatus.CommitIndex)
+		if !have || e.Term != l.Inc.lastStatus.Term {
+			continue
+		}
+		w.leader = l
+		break
+	}
+	if w.leader == nil {
+		c.Rec.probe("window-not-established")
+		return
+	}
+	w.term = w.leader.Inc.lastStatus.Term
+	w.majority = map[string]bool{w.leader.ID: true}
+	var others []*Node
+	for _, n := range c.Nodes {
+		if !n.Spare && n != w.leader {
+			others = append(others, n)
+		}
+	}
+	for i := len(others) - 1; i > 0; i-- {
+		j := rng.Intn(i + 1)
+		others[i], others[j] = others[j], others[i]
+	}
+	need := cfg.Voters/2 + 1
+	for _, n := range others {
+		if len(w.majority) < need {
+			w.majority[n.ID] = true
+		} else {
+			w.minority = append(w.minority, n)
+		}
+	}
+	c.Net.Prompt = w.majority
+	c.Net.PromptDelay = int64(cfg.HeartbeatMs) * 1_000_000 / 4
+	w.active = true
+	w.started = true
+	c.Rec.ev("window-begin leader=%s term=%d majority=%d minority=%d", w.leader.ID, w.term, len(w.majority), len(w.minority))
+	c.Rec.probe("window-established")
+	if len(w.minority) == 0 {
+		c.sleepUntil(untilNs)
+		w.active = false
+		return
+	}
+	ids := func(ns []*Node) []string {
+		var out []string
+		for _, n := range ns {
+			out = append(out, n.ID)
+		}
+		return out
+	}
+	// Phase 2: arbitrary treatment of the minority.
+	for c.Sim.Now() < untilNs && !c.healing {
+		n := w.minority[rng.Intn(len(w.minority))]
+		dur := rng.Range(int64(cfg.HeartbeatMs), 12*int64(cfg.ElectionMs))
+		switch rng.Intn(8) {
+		case 0, 1: // symmetric isolation of some minority nodes, any duration, rejoin at any instant
+			side := []string{n.ID}
+			if len(w.minority) > 1 && rng.Chance(0.4) {
+				side = ids(w.minority)
+			}
+			c.execStep(Step{Kind: StepPartition, Nodes: side})
+			c.Rec.probe("window-isolations")
+			c.sleepMs(dur)
+			c.execStep(Step{Kind: StepHeal})
+			c.Rec.probe("window-rejoins")
+		case 2: // one-directional: the node hears nobody but can talk (or the reverse)
+			var all []string
+			for _, o := range c.Nodes {
+				if o != n && !o.Spare {
+					all = append(all, o.ID)
+				}
+			}
+			if rng.Chance(0.5) {
+				for _, o := range all {
+					c.Net.block(o, n.ID) // deaf: requests to it are lost, its own go out
+				}
+				c.Stats.Partitions++
+			} else {
+				c.execStep(Step{Kind: StepOneWay, Node: n.ID, Nodes: all})
+			}
+			c.Rec.probe("window-oneway-isolations")
+			c.sleepMs(dur)
+			c.execStep(Step{Kind: StepHeal})
+			c.Rec.probe("window-rejoins")
+		case 3: // crash and restart
+			if n.Inc != nil {
+				c.Stats.CrashNow++
+				c.crashNode(n, "time")
+			}
+			c.sleepMs(rng.Range(1, 3*int64(cfg.ElectionMs)))
+			if n.Inc == nil {
+				c.Stats.Restarts++
+				c.startNode(n, nil)
+			}
+			c.Rec.probe("window-minority-restarts")
+		case 4: // fast clock: campaigns repeatedly
+			c.execStep(Step{Kind: StepClockRate, Node: n.ID, A: int64(pick(rng, 110, 125, 150, 300)), B: 100})
+			c.sleepMs(dur)
+		case 5:
+			c.execStep(Step{Kind: StepClockJump, Node: n.ID, A: rng.Range(0, 5*int64(cfg.ElectionMs))})
+			c.sleepMs(rng.Range(1, int64(cfg.ElectionMs)))
+		case 6:
+			c.execStep(Step{Kind: StepStall, Node: n.ID, A: dur})
+			c.sleepMs(dur)
+		default:
+			c.sleepMs(rng.Range(1, 2*int64(cfg.ElectionMs)))
+		}
+	}
+	w.active = false
+	c.Rec.ev("window-end")
+}
+
+// windowVoteRequest counts vote requests from the minority handled by the majority.
+func (w *stickyWindow) voteRequestHandled(inc *Incarnation, m *Msg) {
+	if w == nil || !w.active {
+		return
+	}
+	if w.majority[inc.Node.ID] && m.From != nil && !w.majority[m.From.Node.ID] {
+		w.c.Rec.probe("window-vote-requests-reached-majority")
+		if !m.RV.Prevote {
+			w.c.Rec.probe("window-real-vote-requests-reached-majority")
+		}
+	}
+}
+
+// ------------------------------------------------------------------ C18 API fuzzer
+
+// ApiCall is one public API call made by the fuzzer.
+type ApiCall struct {
+	// AwaitNs is the longest time any Await inside the call took.
+	AwaitNs int64
+	ID       int
+	Name     string
+	Inc      *Incarnation
+	InvokeNs int64
+	Returned bool
+	ReturnNs int64
+	// For calls that await a future: the timeout they passed.
+	TimeoutMs int64
+	StateAt   raft.State
+}
+
+// awaitOp / awaitConf measure how long Await takes (virtual time).
+func awaitOp(c *Cluster, call **ApiCall, f raft.Future[raft.OperationResponse]) raft.Result[raft.OperationResponse] {
+	t0 := c.Sim.Now()
+	res := f.Await()
+	if d := c.Sim.Now() - t0; *call != nil && d > (*call).AwaitNs {
+		(*call).AwaitNs = d
+	}
+	return res
+}
+
+func awaitConf(c *Cluster, call **ApiCall, f raft.Future[raft.Configuration]) raft.Result[raft.Configuration] {
+	t0 := c.Sim.Now()
+	res := f.Await()
+	if d := c.Sim.Now() - t0; *call != nil && d > (*call).AwaitNs {
+		(*call).AwaitNs = d
+	}
+	return res
+}
+
+func (c *Cluster) apiCall(inc *Incarnation, name string, timeoutMs int64, fn func()) *ApiCall {
+	r := c.Rec
+	call := &ApiCall{ID: len(r.ApiCalls) + 1, Name: name, Inc: inc, InvokeNs: c.Sim.Now(), TimeoutMs: timeoutMs}
+	if inc.haveStatus {
+		call.StateAt = inc.lastStatus.State
+		r.probe(fmt.Sprintf("api-in-state-%d", call.StateAt))
+	}
+	r.ApiCalls = append(r.ApiCalls, call)
+	r.probe("api-calls")
+	c.goOn(inc, fmt.Sprintf("api%d-%s", call.ID, name), func() {
+		r.ev("api %d %s at %s", call.ID, name, inc.Name())
+		fn()
+		if simrt.Dead() {
+			return
+		}
+		call.Returned = true
+		call.ReturnNs = c.Sim.Now()
+		r.ev("apireturn %d", call.ID)
+		// Every future resolves by its timeout: Await takes no longer than the timeout
+		// (+ slack for virtual time during which the node's tasks were stalled).
+		if timeoutMs >= 0 {
+			limit := timeoutMs*1_000_000 + 1_000_000 + c.stallSlack(inc)
+			if call.AwaitNs > limit {
+				r.violate("C18", "future-late", strings.Fields(name)[0], "%s at %s: Await took %.3fms, the timeout was %dms", name, inc.Name(), float64(call.AwaitNs)/1e6, timeoutMs)
+			}
+		}
+	})
+	return call
+}
+
+// stallSlack: virtual time during which inc's tasks could not run (stalls) is not the API's fault.
+func (c *Cluster) stallSlack(inc *Incarnation) int64 { return inc.stalledNs }
+
+func (c *Cluster) apiFuzzer(n *Node, untilNs int64) {
+	cfg := c.Cfg
+	rng := simrt.NewRand(cfg.Seed, "api:"+n.ID)
+	timeouts := []int64{0, 1, int64(cfg.HeartbeatMs), int64(cfg.ElectionMs), 20 * int64(cfg.ElectionMs)}
+	for c.Sim.Now() < untilNs && !c.healing {
+		c.sleepMs(rng.Range(0, int64(cfg.ElectionMs)/2))
+		if c.Sim.Now() >= untilNs || c.healing {
+			return
+		}
+		inc := n.Inc
+		if inc == nil || inc.Raft == nil {
+			continue
+		}
+		r := inc.Raft
+		to := timeouts[rng.Intn(len(timeouts))]
+		other := c.Nodes[rng.Intn(len(c.Nodes))]
+		var cur *ApiCall
+		choice := rng.Intn(16)
+		if choice >= 9 && choice <= 13 && n.lifecycle != nil && !n.lifecycle.Returned && n.lifecycle.Inc == inc {
+			// One lifecycle call at a time per node (they are made by one administrator);
+			// everything else keeps overlapping with it.
+			choice = 14
+		}
+		switch choice {
+		case 0:
+			c.apiCall(inc, "Status+String", -1, func() {
+				st := r.Status()
+				_ = st.State.String()
+			})
+		case 1:
+			c.apiCall(inc, "Configuration+String", -1, func() {
+				conf := r.Configuration()
+				_ = conf.String()
+			})
+		case 2:
+			typ := raft.OperationType(rng.Intn(3))
+			cur = c.apiCall(inc, "SubmitOperation", to, func() {
+				_ = typ.String()
+				f := r.SubmitOperation(makePayload(uint64(1<<40)+uint64(rng.Intn(1<<20)), 12), typ, msDur(to))
+				res := awaitOp(c, &cur, f)
+				_ = res.Error()
+				res2 := awaitOp(c, &cur, f) // awaiting twice must return the same result
+				if (res.Error() == nil) != (res2.Error() == nil) {
+					c.Rec.violate("C18", "await-twice", "differs", "SubmitOperation at %s: the second Await returned a different result", inc.Name())
+				}
+			})
+		case 3:
+			cur = c.apiCall(inc, "SubmitOperation(invalid type)", to, func() {
+				f := r.SubmitOperation([]byte("x"), raft.OperationType(7+rng.Intn(100)), msDur(to))
+				if awaitOp(c, &cur, f).Error() == nil {
+					c.Rec.violate("C18", "invalid-argument-accepted", "operation-type", "SubmitOperation with an invalid operation type succeeded at %s", inc.Name())
+				}
+			})
+		case 4:
+			var payload []byte
+			if rng.Chance(0.5) {
+				payload = []byte{}
+			}
+			cur = c.apiCall(inc, "SubmitOperation(empty payload)", to, func() {
+				f := r.SubmitOperation(payload, raft.OperationType(rng.Intn(3)), msDur(to))
+				awaitOp(c, &cur, f)
+			})
+		case 5:
+			cur = c.apiCall(inc, "AddServer", to, func() {
+				f := r.AddServer(other.ID, other.Addr, rng.Chance(0.5), msDur(to))
+				awaitConf(c, &cur, f)
+			})
+		case 6:
+			cur = c.apiCall(inc, "AddServer(unknown)", to, func() {
+				f := r.AddServer("ghost", "127.0.0.1:9999", rng.Chance(0.5), msDur(to))
+				awaitConf(c, &cur, f)
+			})
+		case 7:
+			cur = c.apiCall(inc, "RemoveServer", to, func() {
+				id := other.ID
+				if rng.Chance(0.3) {
+					id = "nobody"
+				}
+				f := r.RemoveServer(id, msDur(to))
+				awaitConf(c, &cur, f)
+			})
+		case 8:
+			c.apiCall(inc, "Bootstrap(again)", -1, func() {
+				members := map[string]string{}
+				for id, a := range c.bootMembers {
+					members[id] = a
+				}
+				if rng.Chance(0.5) {
+					delete(members, n.ID)
+				}
+				_ = r.Bootstrap(members)
+			})
+		case 9:
+			n.lifecycle = c.apiCall(inc, "Start(again)", -1, func() { _ = r.Start() })
+		case 10:
+			n.lifecycle = c.apiCall(inc, "Restart(running)", -1, func() { _ = r.Restart() })
+		case 11, 12:
+			// Graceful stop, pause, then Restart (or, ill-ordered, Start).
+			useStart := rng.Chance(0.3)
+			pause := rng.Range(0, 2*int64(cfg.ElectionMs))
+			name := "Stop+Restart"
+			if useStart {
+				name = "Stop+Start"
+			}
+			c.Stats.StopStarts++
+			n.lifecycle = c.apiCall(inc, name, -1, func() {
+				r.Stop()
+				if simrt.Dead() {
+					return
+				}
+				c.sleepMs(pause)
+				if simrt.Dead() {
+					return
+				}
+				st := r.Status()
+				_ = st.State.String()
+				if useStart {
+					_ = r.Start()
+				} else {
+					_ = r.Restart()
+				}
+			})
+			c.sleepMs(pause + int64(cfg.ElectionMs))
+		case 13:
+			n.lifecycle = c.apiCall(inc, "Stop(twice)", -1, func() {
+				r.Stop()
+				if simrt.Dead() {
+					return
+				}
+				r.Stop()
+				_ = r.Restart()
+			})
+			c.sleepMs(int64(cfg.ElectionMs))
+		default:
+			c.apiCall(inc, "Status", -1, func() { _ = r.Status() })
+		}
+	}
+}
+
+// checkApiHangs: at the end of the run every call must have returned.
+func (c *Cluster) checkApiHangs() {
+	r := c.Rec
+	now := c.Sim.Now()
+	for _, call := range r.ApiCalls {
+		if call.Returned || call.Inc.Node.Inc != call.Inc {
+			continue
+		}
+		limit := call.InvokeNs + 4*c.Cfg.electionNs()
+		if call.TimeoutMs > 0 {
+			limit += call.TimeoutMs * 1_000_000
+		}
+		if now > limit+c.stallSlack(call.Inc) {
+			r.violate("C18", "call-hang", strings.Fields(call.Name)[0], "%s at %s (node state %d), invoked at %dms, has not returned by %dms",
+				call.Name, call.Inc.Name(), call.StateAt, call.InvokeNs/1_000_000, now/1_000_000)
+		}
+	}
+	// Membership futures: a change that commits while its submitter is still leader resolves successfully.
+	for _, call := range r.ConfCalls {
+		if !call.Returned || call.OK || call.AppendedIndex == 0 || call.AppliedAtNs == 0 {
+			continue
+		}
+		deadline := call.InvokeNs + call.TimeoutMs*1_000_000
+		if call.AppliedAtNs+int64(c.Cfg.HeartbeatMs)*1_000_000 < deadline {
+			r.violate("C18", "membership-future", "unresolved-after-commit", "%s(%s) at %s appended configuration %d in term %d, which the node applied at %dms while still leader of that term, yet the future failed with %s at %dms (timeout %dms)",
+				call.Kind, call.Node, call.Target.Name(), call.AppendedIndex, call.AppendedTerm, call.AppliedAtNs/1_000_000, call.ErrKind, call.ReturnNs/1_000_000, call.TimeoutMs)
+		}
+	}
+	_ = time.Second
 }
